@@ -178,7 +178,9 @@ def r2_part_discovery(rep, src):
     rep.saw_func(t)
     import os.path as _osp
 
-    def open_part(name, tar_error=None):
+    seen_pos = []
+
+    def open_part(name, tar_error=None, start_pos=0):
         def topen(it, args, kw):
             if tar_error:
                 raise H.Raised(tar_error, it.h.version, 0)
@@ -198,10 +200,16 @@ def r2_part_discovery(rep, src):
                     raise H.Raised('tarfile.ReadError', it.h.version, 0)
             else:
                 raise H.Raised('tarfile.CompressionError', it.h.version, 0)
+            seen_pos.append(it.h.objs['@member'].get('#pos'))
             return it.h.alloc('TarFile', {}, name='@tar')
-        heap = H.Heap(mod, hooks={'os.path.splitext': lambda it, args, kw: tuple(_osp.splitext(args[0])), 'tarfile.open': topen})
+
+        def mseek(it, args, kw):
+            if isinstance(args[0], H.Ref) and args[0].name == '@member':
+                it.h.objs['@member']['#pos'] = args[1] if len(args) > 1 else None
+            return None
+        heap = H.Heap(mod, hooks={'os.path.splitext': lambda it, args, kw: tuple(_osp.splitext(args[0])), 'tarfile.open': topen, '.seek': mseek})
         heap.symbolic_strings = True
-        member = heap.alloc('ArMember', {'name': name}, name='@member')
+        member = heap.alloc('ArMember', {'name': name, '#pos': start_pos}, name='@member')
         part = heap.alloc('DebPart', {'_DebPart__member': member, '_DebPart__tgz': None}, name='@part')
         try:
             r = H.Interp(heap).call(H.Closure(t.node, {}, part, t.cls), [])
@@ -219,11 +227,39 @@ def r2_part_discovery(rep, src):
         rep.fail('C07.R3', t.site, 'unknown part extensions → DebError', 'the member %r is opened / fails with %r instead of DebError' % (odd[0], open_part(odd[0])), where=t.where)
     else:
         rep.ok('C07.R3', t.site, 'unknown part extensions → DebError', 'refused with DebError')
+    # the tar reader starts at the beginning of the member whatever has been read from the member before (the members are also handed
+    # out by getmember() / iteration of the archive): tarfile.open reads from the current position of the file object it is given
+    del seen_pos[:]
+    r_ = open_part(DATA + '.gz', start_pos=6)
+    if r_[0] == 'ok' and seen_pos and seen_pos[-1] == 0:
+        rep.ok('C07.R3', t.site, 'the part is read from its first byte', 'seek(0) on the member before tarfile.open')
+    else:
+        rep.fail('C07.R3', t.site, 'the part is read from its first byte', 'tarfile.open is handed the member at the position an earlier read left it at (%r): after '
+                 'deb.getmember("data.tar.gz").read(6) -- or any other raw read of the member -- the part looks like an empty archive (has_file False, scripts() {}, '
+                 'md5sums() "file not found")' % (seen_pos[-1] if seen_pos else None,), where=t.where)
     conv = [e for e in ('tarfile.ReadError', 'tarfile.CompressionError') if open_part(DATA + '.gz', e) != ('raise', 'DebError')]
     if conv:
         rep.fail('C07.R3', t.site, 'tarfile errors become DebError', '%s escapes from tgz() (%r)' % (conv[0], open_part(DATA + '.gz', conv[0])), where=t.where)
     else:
         rep.ok('C07.R3', t.site, 'tarfile errors become DebError', 'ReadError and CompressionError are converted')
+
+
+def r6_text_wrapper(rep, src):
+    """file content asked for as text is decoded, not rewritten: the text wrapper around a member does not translate line ends
+    (newline '' or '\\n'; the default None turns CR LF and CR into LF)"""
+    f = src.func(M + ':DebPart.get_file')
+    rep.saw_func(f)
+    calls = [c for c in ast.walk(f.node) if isinstance(c, ast.Call) and norm(c.func) in ('io.TextIOWrapper', 'TextIOWrapper', 'codecs.getreader')]
+    if not calls:
+        raise AnalysisError('%s: the text wrapper was not found' % f.site)
+    for c in calls:
+        nl = next((k.value for k in c.keywords if k.arg == 'newline'), None)
+        nlv = nl.value if isinstance(nl, ast.Constant) else Ellipsis if nl is not None else None
+        if norm(c.func) == 'codecs.getreader' or nlv in ('', '\n'):
+            rep.ok('C07.R6', f.site, 'text access does not rewrite line ends', norm(c)[:70])
+        else:
+            rep.fail('C07.R6', f.site, 'text access does not rewrite line ends', '`%s` translates line ends (newline=%r): get_content(name, encoding=...) returns CR LF and CR of a packed file '
+                     'as LF, so the content differs from what was packed (without encoding the bytes are exact)' % (norm(c)[:70], nlv), where='%s:%d' % (f.module.relpath, c.lineno))
 
 
 def r3_init(rep, src):
@@ -366,4 +402,6 @@ def check(src, rep, tier):
     rep.guard('C07.R2', r2_part_discovery, src)
     rep.guard('C07.R3', r3_init, src)
     rep.guard('C07.R4', r4_md5_scripts, src)
+    rep.need('C07.R6', 1)
+    rep.guard('C07.R6', r6_text_wrapper, src)
     rep.guard('C07.R5', r5_parts_are_isolated_views, src)
